@@ -29,6 +29,82 @@ def shake_load_factor(ctx) -> None:
     ctx.notes.append('token_store load factor drawn from {2,3,4,6,1000} before every parse')
 
 
+def anchored_files(prop: str) -> list[str]:
+    import glob
+    import json
+    for line in open('/verif/properties.jsonl'):
+        p = json.loads(line)
+        if p['id'] == prop:
+            out = []
+            for pat in p['anchors']['files']:
+                out.extend(sorted(glob.glob(str(common.REPO / pat))))
+            return [f for f in out if f.endswith('.py') and not f.endswith('_test.py')]
+    return []
+
+
+def start_impl_coverage(ctx):
+    """How much of the code the property is anchored in do this run's inputs (correspondence + monitors) execute?
+    Measured with coverage.py (branch mode) on the real implementation while the check runs, reported in the
+    evidence (coverage.impl_coverage): generator quality bounds the correspondence, so it is measured, not
+    assumed. Reporting only - never a verdict. On in the thorough tier; VERIF_IMPL_COVERAGE=1/0 forces it on/off."""
+    # default: thorough tier only (tracing slows the Python side of a check by a factor of 2-3)
+    if os.environ.get('VERIF_IMPL_COVERAGE', '1' if ctx.tier == 'thorough' else '0') != '1':
+        return None
+    try:
+        import coverage
+        files = anchored_files(ctx.prop)
+        if not files:
+            return None
+        cov = coverage.Coverage(branch=True, data_file=None, include=files, config_file=False)
+        cov.start()
+        return cov
+    except Exception as e:       # measurement is optional
+        ctx.notes.append(f'implementation coverage not measured: {type(e).__name__}: {e}')
+        return None
+
+
+def ranges(xs: list[int]) -> str:
+    out, i = [], 0
+    while i < len(xs):
+        j = i
+        while j + 1 < len(xs) and xs[j + 1] == xs[j] + 1:
+            j += 1
+        out.append(str(xs[i]) if i == j else f'{xs[i]}-{xs[j]}')
+        i = j + 1
+    return ','.join(out)
+
+
+def stop_impl_coverage(ctx, cov) -> None:
+    if cov is None:
+        return
+    try:
+        cov.stop()
+        rep = {}
+        tot_l = tot_lm = tot_b = tot_bm = 0
+        for f in anchored_files(ctx.prop):
+            try:
+                a = cov._analyze(f)
+            except Exception:
+                continue
+            nums = a.numbers
+            gen = '/models/generated/' in f
+            tot_l += nums.n_statements; tot_lm += nums.n_missing
+            tot_b += nums.n_branches; tot_bm += nums.n_missing_branches
+            if gen:
+                continue          # 34 generated files: only in the totals
+            rep[os.path.relpath(f, common.REPO)] = {
+                'statements': nums.n_statements, 'executed': nums.n_statements - nums.n_missing,
+                'branches': nums.n_branches, 'branches_taken': nums.n_branches - nums.n_missing_branches,
+                'missing_lines': ranges(sorted(a.missing))}
+        ctx.impl_coverage = {
+            'tool': 'coverage.py (branch mode) on the anchored files of this property while this check ran',
+            'statements': tot_l, 'statements_executed': tot_l - tot_lm,
+            'branches': tot_b, 'branches_taken': tot_b - tot_bm,
+            'per_file': rep}
+    except Exception as e:
+        ctx.notes.append(f'implementation coverage not reported: {type(e).__name__}: {e}')
+
+
 def main() -> int:
     ap = argparse.ArgumentParser()
     ap.add_argument('prop')
@@ -38,6 +114,7 @@ def main() -> int:
     a = ap.parse_args()
     prop = a.prop.upper()
     ctx = common.Ctx(prop, a.tier, a.seed)
+    cov = None if a.replay else start_impl_coverage(ctx)     # before the package under test is imported
     try:
         mod = importlib.import_module(f'harness.{prop.lower()}')
     except ModuleNotFoundError as e:
@@ -49,6 +126,8 @@ def main() -> int:
         if a.replay:
             return mod.replay(ctx, a.replay)
         mod.run(ctx)
+        stop_impl_coverage(ctx, cov)
+        cov = None
         if ctx.broken() and not ctx.concrete() and hasattr(mod, 'search'):
             # a proof obligation, the tie or the correspondence broke: look for a concrete failing input
             ctx.deep = True
